@@ -34,7 +34,7 @@ theorem extraClause (x : String) (h : ExtraName x) :
   rw [hxs] at hp
   refine ⟨_, hp, ?_⟩
   simp only [nestedGC, nestedGS, nestedAtom, Generic.Op.str, extraSyn, Syn.text, Atom.text, leafText,
-    quoteOf_dq (fun c hc => (h.val c hc).1), Bool.false_eq_true, if_false]
+    quoteOf_dq (fun c hc => ⟨(h.val c hc).1, (h.val c hc).2.1⟩), Bool.false_eq_true, if_false]
   congr 1
 
 theorem extraSyn_lexable (x : String) (h : ExtraName x) : (extraSyn x).Lexable := by
